@@ -194,12 +194,6 @@ def set_context_state_step(mv: int, a0: int, a1: int, hu0: bool, u0: int, hu1: b
         if _invariant(pm):
             return 'ok'          # assumed: the pre-state satisfies the invariant
         pre = _view(pm)
-        # outside the claim: BICEPS does not allow a disassociated context state to be associated again
-        for (dsel, w, p) in ((0, w1, p1),) + (((d2, w2, p2),) if n == 2 else ()):
-            if p == 0 and w in (1, 2):
-                h = ('cs0', 'cs1')[w - 1] if dsel == 0 else 'os0'
-                if pre[h][1] == CA.DISASSOCIATED:
-                    return 'ok'
         if n == 2 and d2 == 0 and w1 == w2 and w1 in (1, 2):
             return 'ok'          # outside the claim: one request naming the same existing state twice
         before = _snap(pm)
